@@ -93,8 +93,15 @@ fn synthetic(mode: &str) -> Option<SyntheticData> {
 }
 
 fn part_a(ctx: &Ctx, head: &mut Report) {
+    part_a_variant(ctx, head, "by-path");
+    part_a_variant(ctx, head, "by-name");
+}
+
+/// `naming`: "by-path" = tables named after their SQL path, registered once; "by-name" = Qrlew names that differ from
+/// the paths, registered under both (what Database::relations() builds), the privacy unit referring to the names
+fn part_a_variant(ctx: &Ctx, head: &mut Report, naming: &'static str) {
     let world = World::standard();
-    let relations = world.relations();
+    let relations = if naming == "by-name" { world.relations_named() } else { world.relations() };
     let mut subjects: Vec<(String, Arc<Relation>)> = vec![];
     let step = ctx.tier.pick(2, 1);
     for (i, g) in queries(ctx.tier).into_iter().enumerate() {
@@ -105,10 +112,17 @@ fn part_a(ctx: &Ctx, head: &mut Report) {
             subjects.push((g.sql, Arc::new(rel)));
         }
     }
-    let pus: Vec<(&str, PrivacyUnit, Vec<&str>)> = vec![
-        ("all-protected", crate::c18::privacy_unit(), vec!["users", "orders", "items", "m"]),
-        ("users-only", PrivacyUnit::from((vec![("users", vec![], "id")], false)), vec!["users"]),
-    ];
+    let pus: Vec<(&str, PrivacyUnit, Vec<&str>)> = if naming == "by-name" {
+        vec![
+            ("all-protected-by-name", crate::c18::privacy_unit_named(), vec!["people", "purchases", "lines", "mm"]),
+            ("users-only-by-name", PrivacyUnit::from((vec![("people", vec![], "id")], false)), vec!["people"]),
+        ]
+    } else {
+        vec![
+            ("all-protected", crate::c18::privacy_unit(), vec!["users", "orders", "items", "m"]),
+            ("users-only", PrivacyUnit::from((vec![("users", vec![], "id")], false)), vec!["users"]),
+        ]
+    };
     let relations = &relations;
     let pus = &pus;
     let body = par_reports_isolated(subjects, "model_checking", move |(sql, rel), r| {
@@ -203,7 +217,8 @@ fn part_b(ctx: &Ctx, head: &mut Report) {
         return;
     }
     let world = if ctx.tier == Tier::Quick { World::compact() } else { World::standard() };
-    let relations = world.relations();
+    let relations_by_path = world.relations();
+    let relations_by_name = world.relations_named();
     // programs: the DP aggregation queries, plus plain queries (published through synthetic data)
     let mut programs: Vec<(String, Vec<&'static str>)> = dp_queries(ctx.tier).into_iter().map(|q| (q.sql, q.tables)).collect();
     for (sql, t) in [
@@ -220,20 +235,22 @@ fn part_b(ctx: &Ctx, head: &mut Report) {
         sql: String,
         tables: Vec<&'static str>,
         sd: &'static str,
+        naming: &'static str,
         rewritten: Arc<Relation>,
         keys: Vec<bool>,
     }
     let mut progs: Vec<Prog> = vec![];
     for (sql, tables) in programs {
-        for sd in ["none", "full", "partial"] {
-            let id = format!("flow :: {} [sd={sd}]", sql);
+        for (sd, naming) in [("none", "by-path"), ("full", "by-path"), ("partial", "by-path"), ("none", "by-name")] {
+            let id = if naming == "by-path" { format!("flow :: {} [sd={sd}]", sql) } else { format!("flow :: {} [sd={sd} naming={naming}]", sql) };
             if !ctx.wants(&id) {
                 continue;
             }
+            let (relations, pu) = if naming == "by-name" { (&relations_by_name, crate::c18::privacy_unit_named()) } else { (&relations_by_path, crate::c18::privacy_unit()) };
             let r = guarded(|| -> Result<Relation, String> {
-                let rel = Relation::try_from(parse(&sql).map_err(|e| e.to_string())?.with(&relations)).map_err(|e| e.to_string())?;
+                let rel = Relation::try_from(parse(&sql).map_err(|e| e.to_string())?.with(relations)).map_err(|e| e.to_string())?;
                 let dp = DpParameters::new(1.0, 1e-3, 0.5, 100.0, 1.0, 1);
-                let out = rel.rewrite_with_differential_privacy(&relations, synthetic(sd), crate::c18::privacy_unit(), dp).map_err(|e| e.to_string())?;
+                let out = rel.rewrite_with_differential_privacy(relations, synthetic(sd), pu, dp).map_err(|e| e.to_string())?;
                 Ok(out.relation().clone())
             });
             match r {
@@ -241,7 +258,8 @@ fn part_b(ctx: &Ctx, head: &mut Report) {
                     let cols: Vec<String> = rel.schema().iter().map(|f| f.name().to_string()).collect();
                     let keys = classify_columns(&sql, &cols);
                     head.reach("accepted_by_sd_mode", sd);
-                    progs.push(Prog { sql: sql.clone(), tables: tables.clone(), sd, rewritten: Arc::new(rel), keys });
+                    head.reach("accepted_by_naming", naming);
+                    progs.push(Prog { sql: sql.clone(), tables: tables.clone(), sd, naming, rewritten: Arc::new(rel), keys });
                 }
                 Ok(Err(_)) => head.add_count("refused", 1),
                 Err(p) => head.reach("panic_sites(left to C18)", &p.site()),
@@ -276,7 +294,7 @@ fn part_b(ctx: &Ctx, head: &mut Report) {
                  CREATE TABLE ref_sd(city, zone); INSERT INTO ref_sd VALUES ('A',1),('B',2);",
             );
             for p in ps.iter() {
-                let case_id = format!("flow :: {} [sd={}]", p.sql, p.sd);
+                let case_id = if p.naming == "by-path" { format!("flow :: {} [sd={}]", p.sql, p.sd) } else { format!("flow :: {} [sd={} naming={}]", p.sql, p.sd, p.naming) };
                 let plan = match e.plan(&p.rewritten) {
                     Ok(pl) => pl,
                     Err(err) => {
@@ -337,7 +355,7 @@ fn part_b(ctx: &Ctx, head: &mut Report) {
                             if !responds {
                                 let what = if k.1 == usize::MAX { "row-presence" } else { "cell" };
                                 r.violation(
-                                    format!("plain-function-of-protected-rows {what} sd={} :: {}", p.sd, p.sql),
+                                    format!("plain-function-of-protected-rows {what} sd={}{} :: {}", p.sd, if p.naming == "by-path" { "" } else { " naming=by-name" }, p.sql),
                                     &case_id,
                                     json!({"query": p.sql, "synthetic_data": p.sd, "database": show_db(db), "removed_unit": u, "group": k.0, "column": if k.1 == usize::MAX { json!("(row presence)") } else { json!(a0.cols.get(k.1)) },
                                            "on_D": x.map(|c| c.show()), "on_D_minus_u": y.map(|c| c.show()), "result_on_D": a0.show(), "result_on_D_minus_u": b0.show(),
